@@ -358,6 +358,48 @@ func checkC02(c c02Case, ctx *vCtx) *vFailure {
 			return fl
 		}
 	}
+	// "every selected day in file order": one calendar day selected by explicit dates and by the keywords
+	if len(c.S.Days) > 0 && len(c.S.Days) == len(days) {
+		D := c.S.Days[len(c.S.Days)/2]
+		var sel []vDayModel
+		for i, d := range days {
+			if c.S.Days[i] == D {
+				sel = append(sel, d)
+			}
+		}
+		dtxt := vFmtDay(D, c.Layout)
+		forms := []struct {
+			name  string
+			today int
+			args  []string
+		}{
+			{"reg -b D -e D", 9, []string{"reg", "-b", dtxt, "-e", dtxt}},
+			{"-b D reg -e D", 9, []string{"-b", dtxt, "reg", "-e", dtxt}},
+			{"reg -b today -e today", D, []string{"reg", "-b", "today", "-e", "today"}},
+			{"-b yesterday -e yesterday reg", D + 1, []string{"-b", "yesterday", "-e", "yesterday", "reg"}},
+			{"reg -b last7 -e last7", D + 7, []string{"reg", "-b", "last7", "-e", "last7"}},
+		}
+		for _, fm := range forms {
+			var a []string
+			for _, x := range fm.args { // global options go before the command word
+				if x == "reg" {
+					a = append(a, "-d", f.Book, "-l", f.Log)
+					a = append(a, fmtArgs...)
+				}
+				a = append(a, x)
+			}
+			a = append([]string{"--today", vFmtDay(fm.today, c.Layout)}, a...)
+			r := vRunApp(vInvocation{Args: a})
+			ctx.Run(1)
+			if r.Failed {
+				return vFailf("%s failed on valid input: %s", fm.name, r)
+			}
+			if fl := vCompareRegister(fmt.Sprintf("%s (D = %s, today = %s)", fm.name, dtxt, vFmtDay(fm.today, c.Layout)), vReadRegister(r.Stdout), sel, vRegExpect{true, true}); fl != nil {
+				return fl
+			}
+		}
+		ctx.Label("one-day-selected")
+	}
 	// single-element register rows against the model: reg -s X (one row per day that has X), reg -s X -g (per book food)
 	if len(c.S.Basics) > 0 {
 		x := c.S.Basics[0]
